@@ -29,10 +29,13 @@ const (
 var ErrGlobalNotFound = errors.New("global not found")
 
 type VirtualMachine struct {
-	ip           int // instruction pointer
-	sp           int // stack pointer
-	fp           int // frame pointer
-	halt         int32
+	ip int // instruction pointer
+	sp int // stack pointer
+	fp int // frame pointer
+	// halt points to the halt flag of the current run. Every run gets a new
+	// flag, so that a watcher goroutine left over from an earlier run (whose
+	// context is cancelled later) can only set a flag that nobody reads.
+	halt         *int32
 	startCount   int64
 	activeFrame  *frame
 	activeCode   *code
@@ -77,6 +80,7 @@ func NewEmpty() (*VirtualMachine, error) {
 func createVM(options []Option) (*VirtualMachine, error) {
 	vm := &VirtualMachine{
 		sp:           -1,
+		halt:         new(int32),
 		modules:      map[string]*object.Module{},
 		inputGlobals: map[string]any{},
 		globals:      map[string]object.Object{},
@@ -127,7 +131,8 @@ func (vm *VirtualMachine) start(ctx context.Context) error {
 	vm.running = true
 	vm.startCount++
 	// Halt execution when the context is cancelled
-	vm.halt = 0
+	halt := new(int32)
+	vm.halt = halt
 	if doneChan := ctx.Done(); doneChan != nil {
 		verifGo(0)
 		go func() {
@@ -136,7 +141,7 @@ func (vm *VirtualMachine) start(ctx context.Context) error {
 			verifPoint(10, doneChan, vm)
 			<-doneChan
 			verifPoint(11, doneChan, vm)
-			atomic.StoreInt32(&vm.halt, 1)
+			atomic.StoreInt32(halt, 1)
 		}()
 		verifGo(3)
 	}
@@ -229,7 +234,6 @@ func (vm *VirtualMachine) resetForNewCode() {
 	vm.sp = -1
 	vm.ip = 0
 	vm.fp = 0
-	vm.halt = 0
 	vm.activeFrame = nil
 	vm.activeCode = nil
 	vm.loadedCode = map[*compiler.Code]*code{}
@@ -288,7 +292,7 @@ func (vm *VirtualMachine) eval(ctx context.Context) error {
 	// Run to the end of the active code
 	for vm.ip < len(vm.activeCode.Instructions) {
 
-		if atomic.LoadInt32(&vm.halt) == 1 {
+		if atomic.LoadInt32(vm.halt) == 1 {
 			return ctx.Err()
 		}
 
@@ -1091,6 +1095,7 @@ func (vm *VirtualMachine) Clone() (*VirtualMachine, error) {
 
 	clone := &VirtualMachine{
 		sp:           -1,
+		halt:         new(int32),
 		ip:           0,
 		fp:           0,
 		running:      false,
@@ -1128,6 +1133,7 @@ func (vm *VirtualMachine) cloneCallAsync(
 	// so halt the clone when the context is cancelled, as start() does for
 	// the VM that runs the main code
 	if doneChan := ctx.Done(); doneChan != nil {
+		halt := clone.halt
 		verifGo(0)
 		go func() {
 			verifGo(1)
@@ -1135,7 +1141,7 @@ func (vm *VirtualMachine) cloneCallAsync(
 			verifPoint(10, doneChan, clone)
 			<-doneChan
 			verifPoint(11, doneChan, clone)
-			atomic.StoreInt32(&clone.halt, 1)
+			atomic.StoreInt32(halt, 1)
 		}()
 		verifGo(3)
 	}
